@@ -42,30 +42,31 @@ type RecView struct {
 }
 
 type ISnap struct {
-	I          string `json:"i"`
-	IsLeader   bool   `json:"l"`
-	Token      string `json:"tok"`
-	LeaderID   string `json:"lid"`
-	State      string `json:"st"`
-	SIsLead    bool   `json:"sl"`
-	SToken     string `json:"stok"`
-	SLeader    string `json:"slid"`
-	SRev       uint64 `json:"srev"`
-	Blocked    bool   `json:"blocked,omitempty"`     // Status() did not return
-	StopFailed bool   `json:"stop_failed,omitempty"` // a shutdown was begun and returned an error: incomplete
-	Fine       bool   `json:"fine,omitempty"`        // taken inside a fine-mode window (a goroutine may be parked inside a critical section)
-	Gauge      int    `json:"g"`                     // last value of the is-leader gauge (-1 = never set)
-	NProm      int    `json:"np"`
-	NDem       int    `json:"nd"`
-	InStop     bool   `json:"instop,omitempty"`
-	StopDone   bool   `json:"stopdone,omitempty"`
-	Started    bool   `json:"started,omitempty"`
-	Cut        bool   `json:"cut,omitempty"`
-	WQ         int    `json:"wq"`               // undelivered events of the instance's active watcher (-1: none active)
-	WDeliv     int    `json:"wd"`               // events delivered to it
-	Pend       int    `json:"pend"`             // pending gated ops of the instance
-	OwnRev     uint64 `json:"ownrev,omitempty"` // revision of the instance's latest acknowledged successful write
-	WOpen      int    `json:"wopen,omitempty"`  // watchers of the instance that were handed out and never stopped
+	I            string `json:"i"`
+	IsLeader     bool   `json:"l"`
+	Token        string `json:"tok"`
+	LeaderID     string `json:"lid"`
+	State        string `json:"st"`
+	SIsLead      bool   `json:"sl"`
+	SToken       string `json:"stok"`
+	SLeader      string `json:"slid"`
+	SRev         uint64 `json:"srev"`
+	Blocked      bool   `json:"blocked,omitempty"`       // Status() did not return
+	CtxCancelled bool   `json:"ctx_cancelled,omitempty"` // the context passed to Start has been cancelled
+	StopFailed   bool   `json:"stop_failed,omitempty"`   // a shutdown was begun and returned an error: incomplete
+	Fine         bool   `json:"fine,omitempty"`          // taken inside a fine-mode window (a goroutine may be parked inside a critical section)
+	Gauge        int    `json:"g"`                       // last value of the is-leader gauge (-1 = never set)
+	NProm        int    `json:"np"`
+	NDem         int    `json:"nd"`
+	InStop       bool   `json:"instop,omitempty"`
+	StopDone     bool   `json:"stopdone,omitempty"`
+	Started      bool   `json:"started,omitempty"`
+	Cut          bool   `json:"cut,omitempty"`
+	WQ           int    `json:"wq"`               // undelivered events of the instance's active watcher (-1: none active)
+	WDeliv       int    `json:"wd"`               // events delivered to it
+	Pend         int    `json:"pend"`             // pending gated ops of the instance
+	OwnRev       uint64 `json:"ownrev,omitempty"` // revision of the instance's latest acknowledged successful write
+	WOpen        int    `json:"wopen,omitempty"`  // watchers of the instance that were handed out and never stopped
 }
 
 type Term struct {
@@ -85,13 +86,15 @@ type Inst struct {
 	conn *nats.Conn
 	cfg  leader.ElectionConfig
 
-	created     bool
-	started     bool
-	crashed     bool
-	partitioned bool
-	inStopCall  int
-	stopDone    bool // a stop call returned nil and no Start since
-	stopFailed  bool // a StopWithContext call returned an error (time-out, cancelled context) and no Start since
+	created      bool
+	started      bool
+	crashed      bool
+	partitioned  bool
+	inStopCall   int
+	stopDone     bool // a stop call returned nil and no Start since
+	startCancel  context.CancelFunc
+	ctxCancelled bool // the context passed to the latest Start has been cancelled by the script
+	stopFailed   bool // a StopWithContext call returned an error (time-out, cancelled context) and no Start since
 
 	gauge       int
 	nProm       int
@@ -432,12 +435,19 @@ func (w *World) callAPI(in *Inst, it *Item) string {
 				return "create:" + err.Error()
 			}
 		}
-		err := in.el.Start(w.rootCtx)
+		// every run gets its own context (a child of the harness root), so that a script
+		// item can cancel it: the documented way of stopping an election without Stop
+		sctx, scancel := context.WithCancel(w.rootCtx)
+		err := in.el.Start(sctx)
 		w.lock()
-		if err == nil {
+		if err != nil {
+			scancel() // not used: the running election keeps its own context
+		} else {
+			in.startCancel = scancel
 			in.started = true
 			in.stopDone = false
 			in.stopFailed = false
+			in.ctxCancelled = false
 			if in.spec.Monitored && in.notifyQ == nil {
 				in.notifyQ = make(chan string, 64)
 				go w.dispatcher(in)
@@ -445,6 +455,15 @@ func (w *World) callAPI(in *Inst, it *Item) string {
 		}
 		w.unlock()
 		return errStr(err)
+	case "cancelctx":
+		// cancel the context that was passed to Start
+		w.lock()
+		in.ctxCancelled = true
+		w.unlock()
+		if in.startCancel != nil {
+			in.startCancel()
+		}
+		return "nil"
 	case "stop":
 		w.lock()
 		in.inStopCall++
